@@ -94,7 +94,7 @@ func c12Run(c c12Case) Verdict {
 	g := greetWord(c.LMTP)
 	if c.TLS == "upgraded" {
 		out, _ := w.Exchange([]byte(g + " pre\r\nSTARTTLS\r\n"))
-		if !strings.Contains(string(out), "220 2.0.0 Ready to start TLS") {
+		if !strings.Contains("\r\n"+string(out), "\r\n220 ") {
 			w.Finish()
 			return failf("starttls", "STARTTLS advertised/configured but not accepted: %s", q(out))
 		}
@@ -106,7 +106,7 @@ func c12Run(c c12Case) Verdict {
 	}
 	if c.TLS == "failed" {
 		out, st := w.Exchange([]byte(g + " pre\r\nSTARTTLS\r\n"))
-		if st != harness.QIdle || !strings.Contains(string(out), "220 2.0.0 Ready to start TLS") {
+		if st != harness.QIdle || !strings.Contains("\r\n"+string(out), "\r\n220 ") {
 			w.Finish()
 			return failf("starttls", "STARTTLS advertised/configured but not accepted: %s", q(out))
 		}
